@@ -316,6 +316,10 @@ let e2e13_record (tok : string) : string =
     else (match direct_viol None with
         | Some c -> "viol e2e " ^ c ^ " " ^ rec_summary r
         | None -> "diff e2e unexpected-result " ^ rec_summary r)
+  | Some _ when r.res = "rows" && r.co = None ->
+    (* every session API exposes the coordinator of a rows result; without it the first-real-answer
+       check could not tell which node's answer was returned *)
+    "diff e2e rows-without-coordinator " ^ rec_summary r
   | Some o ->
     let spec13 = Option.map (fun (m, iv) -> (nat_of_int m, n_of_int (iv * 1000))) r.spec in
     let chk cs assign ls = e2e_check13 r.pol r.idem spec13 r.cl0 nodes r.down cs assign r.frs ls r.t0 r.tr r.mg o r.co in
@@ -368,6 +372,20 @@ let verdict case impl =
   | ["X"; max; iv; fs], (_ :: _ as observed) ->
     let max = nat_of_int (int_of_n (n_of_hex max)) and iv = n_of_hex iv in
     let fs = fibers_of_string fs in
+    (* the last token tells how the REAL can_be_ignored classified each listed outcome.  The property text
+       does not fix the ignorable class (the model's table is the reading): where the real table differs
+       from the model's for an outcome of this case, every difference is a broken correspondence *)
+    let cls, observed = List.partition (fun t -> String.length t >= 2 && String.sub t 0 2 = "c=") observed in
+    let reclassified = match cls with
+      | [c] when c <> "c=-" ->
+        let bits = String.sub c 2 (String.length c - 2) in
+        String.length bits = List.length fs
+        && List.exists2 (fun b (_, o) -> match o with
+            | None -> b <> '-'
+            | Some r -> b <> (if can_be_ignored r then '1' else '0')) (List.init (String.length bits) (String.get bits)) fs
+      | _ -> false in
+    if reclassified then "diff can_be_ignored-differs-for-an-outcome-of-this-case" else
+    if observed = [] then "error no-observation" else
     let model () = String.concat " " (List.sort_uniq compare (List.map string_of_obs (timed_runs max iv fs))) in
     let check tok =
       match obs_of_string tok with
